@@ -5,6 +5,7 @@ def obligations():
     obs = parser_ob.obligations_seq('O12.4') + parser_ob.obligations_templates('O12.4')
     from props import selftest_ob
     obs += selftest_ob.parser_obligations('O12.0')
+    obs += parser_ob.obligations_parse_entry('O12.5')
     try:
         from props import e1_obs
         obs += e1_obs.c12_obligations()
